@@ -74,6 +74,8 @@ impl CosetTable {
             let b = self.canon(b);
 
             if a != b {
+                #[cfg(feature = "verif")]
+                crate::verif_hooks::hit("cosets.coincidence");
                 for g in self.all_gens() {
                     if let Some(ag) = self.get(a, g) {
                         if let Some(bg) = self.get(b, g) {
@@ -208,6 +210,8 @@ fn scan_and_connect(
     let (head, tail, gap, c) = scan_both_ways(table, w, start);
 
     if gap == 1 {
+        #[cfg(feature = "verif")]
+        crate::verif_hooks::hit("cosets.deduction");
         table.join(head, tail, c);
     } else if gap == 0 && head != tail {
         table.merge(head, tail);
@@ -235,6 +239,8 @@ pub fn coset_table(
                 let n = table.len();
                 assert!(n < 100_000, "Reached coset table limit of 100_000");
 
+                #[cfg(feature = "verif")]
+                crate::verif_hooks::hit("cosets.definition");
                 table.join(i, n, g);
                 for w in &rels {
                     if w[0] == g {
@@ -374,9 +380,13 @@ fn derived_table(
         for rel in expanded_rels {
             let (head, tail, gap, c) = scan_both_ways(&result, rel, row);
             if gap == 1 {
+                #[cfg(feature = "verif")]
+                crate::verif_hooks::hit("cosets.lowindex.deduction");
                 result.join(head, tail, c);
                 q.push_back(head);
             } else if gap == 0 && head != tail {
+                #[cfg(feature = "verif")]
+                crate::verif_hooks::hit("cosets.lowindex.contradiction");
                 return None;
             }
         }
@@ -442,6 +452,8 @@ fn compare_renumbered_from(table: &CosetTable, start: usize) -> isize {
 fn is_canonical(table: &CosetTable) -> bool {
     for start in 1..table.len() {
         if compare_renumbered_from(table, start) < 0 {
+            #[cfg(feature = "verif")]
+            crate::verif_hooks::hit("cosets.lowindex.noncanonical");
             return false;
         }
     }
